@@ -433,11 +433,17 @@ pub struct Config {
     pub record_trace: bool,
     /// stop after this many executions (cap; reported by the caller as non-exhaustive)
     pub max_executions: u64,
+    /// false (default): the bound counts preemptions only (switching away from a thread that could
+    /// continue); choices among enabled threads when the running thread blocks or ends are free
+    /// and all explored. true: EVERY departure from the default choice costs 1 ("deviation
+    /// bounding") — use it for programs with many threads, where the free choices alone are
+    /// exponential in the number of blocking operations.
+    pub count_all_deviations: bool,
 }
 
 impl Default for Config {
     fn default() -> Self {
-        Self { preemption_bound: 2, max_steps: 20_000, exec_timeout: Duration::from_secs(20), record_trace: false, max_executions: u64::MAX }
+        Self { preemption_bound: 2, max_steps: 20_000, exec_timeout: Duration::from_secs(20), record_trace: false, max_executions: u64::MAX, count_all_deviations: false }
     }
 }
 
@@ -634,7 +640,7 @@ pub fn explore(cfg: &Config, roots: Vec<Vec<u8>>, body: &(dyn Fn() -> String + S
         for (i, c) in r.choices.iter().enumerate() {
             if i >= prefix.len() {
                 for alt in 1..c.enabled {
-                    let extra = usize::from(c.current_enabled);
+                    let extra = usize::from(c.current_enabled || cfg.count_all_deviations);
                     if cost + extra <= cfg.preemption_bound {
                         let mut p: Vec<u8> = r.choices[..i].iter().map(|x| x.chosen).collect();
                         p.push(alt);
@@ -642,7 +648,7 @@ pub fn explore(cfg: &Config, roots: Vec<Vec<u8>>, body: &(dyn Fn() -> String + S
                     }
                 }
             }
-            if c.current_enabled && c.chosen != 0 {
+            if (c.current_enabled || cfg.count_all_deviations) && c.chosen != 0 {
                 cost += 1;
             }
         }
@@ -675,13 +681,13 @@ pub fn explore_sharded(
     let mut alts: Vec<Vec<u8>> = Vec::new();
     for (i, c) in r.choices.iter().enumerate() {
         for alt in 1..c.enabled {
-            if cost + usize::from(c.current_enabled) <= cfg.preemption_bound {
+            if cost + usize::from(c.current_enabled || cfg.count_all_deviations) <= cfg.preemption_bound {
                 let mut p: Vec<u8> = r.choices[..i].iter().map(|x| x.chosen).collect();
                 p.push(alt);
                 alts.push(p);
             }
         }
-        if c.current_enabled && c.chosen != 0 {
+        if (c.current_enabled || cfg.count_all_deviations) && c.chosen != 0 {
             cost += 1;
         }
     }
